@@ -135,9 +135,10 @@ def getValue (d : OptDecl) (sl : Slot) : Val :=
     | none => d.kind.default
   else sl.val
 
-/-- `SetValue` through the option's setter. -/
+/-- `SetValue` through the option's setter.  (A flag is a `StoredOption<bool>`: it writes its
+variable whatever the name pattern.) -/
 def setValue (d : OptDecl) (v : Val) (sl : Slot) : Slot :=
-  if d.isWildcard then { sl with log := (sl.wcBody, v) :: sl.log } else { sl with val := v }
+  if d.isWildcard && d.kind != .flag then { sl with log := (sl.wcBody, v) :: sl.log } else { sl with val := v }
 
 /-- `echo()`: the name, or head ++ last body ++ tail of the name pattern for a wildcard option. -/
 def echoName (d : OptDecl) (sl : Slot) : Bytes :=
@@ -151,22 +152,32 @@ def doEcho (noEcho : Bool) (d : OptDecl) (st : St) : St :=
 
 /-! ## lookup -/
 
-/-- `FindOption(name, wildcardvalues = true)`.  The second loop visits the options in set
-order; per option first the inline synonyms (case-insensitive), then `wc_match`
-(case-sensitive, records key and body in the option). -/
-def findLoop (key : Bytes) (st : St) : Table → Option (OptDecl × St)
+/-- The second loop of `FindOption(name, wildcardvalues = true)`: visits the options in set
+order; per option first the inline synonyms (case-insensitive), then `wc_match` (case-sensitive;
+on success it returns the body that `wc_match` records). -/
+def findLoop (key : Bytes) : Table → Option (OptDecl × Option Bytes)
   | [] => none
   | d :: ds =>
-    if d.syns.any (fun syn => ciEq key syn) then some (d, st)
+    if d.syns.any (fun syn => ciEq key syn) then some (d, none)
     else
       match wcMatch d.headTails key with
-      | some body => some (d, st.modify d.id (fun sl => { sl with wcKey := key, wcBody := body }))
-      | none => findLoop key st ds
+      | some body => some (d, some body)
+      | none => findLoop key ds
+
+/-- which option `FindOption(key, true)` returns, and the wildcard body if it was found by `wc_match`. -/
+def lookup (t : Table) (key : Bytes) : Option (OptDecl × Option Bytes) :=
+  match t.find? (fun d => ciEq d.name key) with
+  | some d => if d.isWildcard then none else some (d, none)
+  | none => findLoop key t
+
+/-- the side effect of a successful `wc_match`: `wc_key_last_`, `wc_body_last_`. -/
+def noteMatch (d : OptDecl) (key : Bytes) (ob : Option Bytes) (st : St) : St :=
+  match ob with
+  | none => st
+  | some body => st.modify d.id (fun sl => { sl with wcKey := key, wcBody := body })
 
 def findOption (t : Table) (key : Bytes) (st : St) : Option (OptDecl × St) :=
-  match t.find? (fun d => ciEq d.name key) with
-  | some d => if d.isWildcard then none else some (d, st)
-  | none => findLoop key st t
+  (lookup t key).map (fun r => (r.1, noteMatch r.1 key r.2 st))
 
 /-! ## one iteration of the `for (;;)` loop of `ParseOptionString` -/
 
@@ -207,7 +218,7 @@ def reportError (cfg : Cfg) (e : Err) (s : Bytes) (st : St) : Step :=
 /-- `opt->Parse(s, flags & FROM_COMMAND_LINE)` followed by the echo. -/
 def parseValue (cfg : Cfg) (d : OptDecl) (s : Bytes) (st : St) : Step :=
   match d.kind with
-  | .flag => .cont s (doEcho cfg.noEcho d (st.modify d.id (fun sl => { sl with val := .flag true })))
+  | .flag => .cont s (doEcho cfg.noEcho d (st.modify d.id (setValue d (.flag true))))
   | .int =>
     let (v, r) := parseInt s
     if intChkOk d.chk v then .cont r (doEcho cfg.noEcho d (st.modify d.id (setValue d (.int v))))
@@ -327,6 +338,7 @@ def parseStr (cfg : Cfg) (s : Bytes) (st : St) : Outcome × St :=
 termination_by s.length
 decreasing_by exact step_progress h
 
+set_option linter.unusedVariables false in
 /-- number of loop iterations executed (for the progress theorem and the coverage histogram). -/
 def parseIters (cfg : Cfg) (s : Bytes) (st : St) : Nat :=
   match h : step cfg s st with
